@@ -16,7 +16,7 @@ regenerated from the AST of `IsNoResponseCode` on every run.
 -/
 namespace CoapVerif.Props.C20
 open CoapVerif CoapVerif.Model.NoResponse CoapVerif.Generated.NoResponse
-open CoapVerif.Spec.NoResponse (Transport ReqType Sent Wire suppressed supOf expected judge)
+open CoapVerif.Spec.NoResponse (Transport ReqType Sent Wire suppressed supOf expected judge expectedCalls judgeCalls)
 
 /-- `v &&& 2^k ≠ 0` is bit `k` of `v`. -/
 theorem and_two_pow_ne_zero (v k : Nat) : ((v &&& 2 ^ k) != 0) = v.testBit k := by
@@ -133,6 +133,63 @@ theorem unsuppressed_sent (tr : Transport) (rt : ReqType) (noResp : Option Nat) 
   unfold serve
   cases tr <;> cases rt <;> simp [hacc] <;> (by_cases h0 : code = 0 <;> simp [h0])
 
+/-! ### Several `SetResponse` calls in one handler (any number, any codes) -/
+
+/-- one call: `serve` is `wire` applied to the message the single call leaves -/
+theorem serve_eq_wire (tr : Transport) (rt : ReqType) (noResp : Option Nat) (code : Nat) :
+    (serve tr rt noResp code).2 = wire tr rt (afterCalls noResp [code]) := by
+  unfold serve wire afterCalls
+  cases h : setResponseAccepted noResp code <;> cases tr <;> cases rt <;> simp [h] <;>
+    (by_cases h0 : code = 0 <;> simp [h0])
+
+theorem foldl_lastAccepted (p : Nat → Bool) (cs : List Nat) (s : Option Nat) :
+    cs.foldl (fun s c => if p c then some c else s) s = ((cs.filter p).getLast?).or s := by
+  induction cs generalizing s with
+  | nil => simp
+  | cons c cs ih =>
+    simp only [List.foldl_cons, ih, List.filter_cons]
+    cases hp : p c
+    · simp
+    · simp only [if_true]
+      cases hl : (cs.filter p).getLast? with
+      | none =>
+        have : cs.filter p = [] := by simpa [List.getLast?_eq_none_iff] using hl
+        simp [this]
+      | some x =>
+        have hne : cs.filter p ≠ [] := by intro h; simp [h] at hl
+        simp [List.getLast?_cons_of_ne_nil hne, hl] <;> simp_all
+
+/-- the message after the calls carries the code of the last call that was not refused -/
+theorem afterCalls_eq_lastAccepted (noResp : Option Nat) (cs : List Nat) :
+    afterCalls noResp cs = (cs.filter (setResponseAccepted noResp)).getLast? := by
+  unfold afterCalls
+  rw [foldl_lastAccepted (setResponseAccepted noResp) cs none]
+  simp
+
+/-- **serveCalls_conforms.** For every transport, request type, option value and every sequence of `SetResponse` calls of a
+    handler: each call is refused exactly when RFC 7967 suppresses its class, and the wire carries the response of the last
+    call that was not refused (an accepted response is not dropped by a later refused call), else the suppression outcome. -/
+theorem serveCalls_conforms (tr : Transport) (rt : ReqType) (noResp : Option Nat) (cs : List Nat) :
+    judgeCalls tr rt noResp cs (serveCalls tr rt noResp cs) = true := by
+  have hfun : setResponseAccepted noResp = fun c => !supOf noResp c := by
+    funext c; rw [setResponse_refused_iff]
+  unfold judgeCalls serveCalls expectedCalls
+  rw [afterCalls_eq_lastAccepted, hfun]
+  cases hl : (cs.filter (fun c => !supOf noResp c)).getLast? with
+  | none => cases tr <;> cases rt <;> simp [wire]
+  | some c => cases tr <;> cases rt <;> simp [wire] <;> (by_cases h0 : c = 0 <;> simp [h0])
+
+/-- **accepted_survives_refusal.** If the handler's response `c1` was accepted, a later call with a suppressed code `c2`
+    changes nothing on the wire. -/
+theorem accepted_survives_refusal (tr : Transport) (rt : ReqType) (noResp : Option Nat) (pre : List Nat) (c2 : Nat)
+    (h2 : supOf noResp c2 = true) :
+    (serveCalls tr rt noResp (pre ++ [c2])).2 = (serveCalls tr rt noResp pre).2 := by
+  have hacc : setResponseAccepted noResp c2 = false := by rw [setResponse_refused_iff]; simp [h2]
+  simp [serveCalls, afterCalls, List.foldl_append, hacc]
+
+example : serveCalls .udp .con (some 16) [69, 160] = ([true, false], [⟨"ack", 69, "req", true⟩]) := by decide
+example : serveCalls .tcp .non (some 2) [69, 132, 68] = ([false, true, false], [⟨"-", 132, "-", true⟩]) := by decide
+
 /-- The option value read by the response writer is the big-endian value of at most four bytes. -/
 theorem decodeUint32_lt (bs : List UInt8) : decodeUint32 bs < 2 ^ 32 := by
   unfold decodeUint32
@@ -181,4 +238,9 @@ open CoapVerif.Props.C20
 #print axioms suppressed_not_sent
 #print axioms unsuppressed_sent
 #print axioms decodeUint32_lt
+#print axioms serve_eq_wire
+#print axioms foldl_lastAccepted
+#print axioms afterCalls_eq_lastAccepted
+#print axioms serveCalls_conforms
+#print axioms accepted_survives_refusal
 end Audit
